@@ -3,8 +3,9 @@
    Model: Model/AddGrad.v (add_gradients.py with the makers it calls), library: Base/PWL.v.
    [to_pwl g] is the rendering of one gradient (including its delay) as a piecewise-linear function,
    [sum_eval (map to_pwl grads) t] the sum of the input renderings at time t. *)
-From Coq Require Import ZArith QArith Qabs List Bool Lqa.
-From PV Require Import Base.QUtil Base.PWL Gen.GenAddGrad Model.AddGrad Proofs.AddGradProofs.
+From Coq Require Import ZArith QArith Qabs List Bool Lqa Lia.
+From PV Require Import Base.QUtil Base.PWL Gen.GenAddGrad Model.AddGrad Proofs.AddGradProofs
+                       Proofs.AddGradRaster Proofs.AddGradLegal Proofs.AddGradLimits.
 Import ListNotations.
 Open Scope Q_scope.
 
@@ -42,23 +43,38 @@ Theorem C16_add_ext_path_sum : forall s mg ms grads g,
 Proof. exact add_ext_path_sum. Qed.
 Print Assumptions C16_add_ext_path_sum.
 
-(* Raster path (_partial): the result starts at the smallest delay, every returned sample is the sum
-   of the input sample lists (points_to_waveform at raster centres, zero-padded by the delay
-   difference) at the same index, first/last are the sums over the inputs that start first / end
-   last.  Missing for the full statement: the identification of the k-th input sample with
-   [eval (to_pwl g_i)] at the k-th raster centre (index arithmetic of points_to_waveform); it is
-   checked by the exact oracle of harness/props/C16.py on every generated case. *)
-Theorem C16_add_raster_path_sum_at_centres_partial : forall s mg ms grads g,
-  add_gradients s mg ms grads = OK (P_raster, g) ->
+(* Raster path, ANY number of inputs of any kind (trapezoids, extended trapezoids, raster-sampled
+   gradients), all timings on the gradient raster (RasterInputsOk): the result starts at the smallest
+   delay cd and, at EVERY raster centre cd + (k + 1/2) raster (all k >= 0, also beyond its end), its
+   rendering equals the sum of the input renderings.  (A peak between two centres is not
+   representable in a raster-sampled event, so this is the full statement for this path.) *)
+Theorem C16_add_raster_path_sum_at_centres : forall s mg ms grads g,
+  add_gradients s mg ms grads = OK (P_raster, g) -> RasterInputsOk s grads ->
   let cd := minl (map g_delay grads) in
-  exists e, g = GExt e /\ eg_delay e = cd /\
-    (forall k, nth k (eg_wf e) 0 == sumQ (map (fun gi => nth k (raster_samples s cd gi) 0) grads)) /\
-    eg_first e = sumQ (map g_first (filter (fun g => same_time (g_delay g) cd) grads)) /\
-    eg_last e = sumQ (map g_last (filter (fun g => same_time (g_dur g) (maxl (map g_dur grads))) grads)).
-Proof. exact add_raster_path_sum_at_centres_partial. Qed.
-Print Assumptions C16_add_raster_path_sum_at_centres_partial.
+  g_delay g = cd /\
+  forall k : nat, eval (to_pwl g) (cd + ctr (s_raster s) k)
+                  == sum_eval (map to_pwl grads) (cd + ctr (s_raster s) k).
+Proof. exact add_raster_path_sum_at_centres_eval. Qed.
+Print Assumptions C16_add_raster_path_sum_at_centres.
 
-(* Limits (_partial: maker level for the trapezoid path, add_gradients level for the raster path):
+(* the same in terms of the stored samples, plus first / last *)
+Theorem C16_add_raster_samples_first_last : forall s mg ms grads g,
+  add_gradients s mg ms grads = OK (P_raster, g) -> RasterInputsOk s grads ->
+  let cd := minl (map g_delay grads) in
+  (exists e, g = GExt e /\ eg_delay e = cd /\
+     forall k, nth k (eg_wf e) 0 == sum_eval (map to_pwl grads) (cd + ctr (s_raster s) k)) /\
+  (exists e, g = GExt e /\
+     eg_first e = sumQ (map g_first (filter (fun g => same_time (g_delay g) cd) grads)) /\
+     eg_last e = sumQ (map g_last (filter (fun g => same_time (g_dur g) (maxl (map g_dur grads))) grads))).
+Proof.
+  intros s mg ms grads g H Hok cd. split.
+  - exact (add_raster_path_sum_at_centres s mg ms grads g H Hok).
+  - destruct (add_raster_path_sum_at_centres_partial s mg ms grads g H) as (e & E & _ & _ & F & L).
+    exists e. split; [exact E|]. split; [exact F|exact L].
+Qed.
+Print Assumptions C16_add_raster_samples_first_last.
+
+(* Limits (maker level first; the add_gradients-level statements for the three paths follow):
    the call raises exactly when the sum exceeds max_grad + eps or max_slew * (1 + eps) of the limits
    that the code forwards (ag_*_passes_limits are read from the source on every run). *)
 Theorem C16_make_trap_amp_raises_iff : forall mg ms amp rise flat fall delay,
@@ -68,7 +84,7 @@ Theorem C16_make_trap_amp_raises_iff : forall mg ms amp rise flat fall delay,
 Proof. exact make_trap_amp_raises_iff. Qed.
 Print Assumptions C16_make_trap_amp_raises_iff.
 
-Theorem C16_add_raises_iff_over_limit_raster_partial : forall s mga msa grads,
+Theorem C16_add_raises_iff_over_limit_raster : forall s mga msa grads,
   (2 <= length grads)%nat -> same_timing grads = false ->
   forallb (fun g => is_trap g || negb (is_arb s g)) grads = false ->
   diffs (raster_sum s grads) <> [] ->
@@ -80,7 +96,83 @@ Theorem C16_add_raises_iff_over_limit_raster_partial : forall s mga msa grads,
    (ms3 * (1 + eps) < max_absl (map (fun x => x / s_raster s) (diffs (raster_sum s grads))) \/
     mg3 + eps < max_absl (raster_sum s grads))).
 Proof. exact add_raster_raises_iff. Qed.
-Print Assumptions C16_add_raises_iff_over_limit_raster_partial.
+Print Assumptions C16_add_raises_iff_over_limit_raster.
+
+(* Equal-timing path, add_gradients level *)
+Theorem C16_add_raises_iff_over_limit_trap : forall s mga msa t0 rest,
+  (1 <= length rest)%nat -> same_timing (GTrap t0 :: rest) = true ->
+  ~ tr_rise t0 == 0 -> ~ tr_fall t0 == 0 ->
+  let A := sumQ (map amp_of (GTrap t0 :: rest)) + eps in
+  ((exists e, add_gradients s mga msa (GTrap t0 :: rest) = Err e) <->
+   (trap_max_grad s mga + eps < Qabs A \/
+    trap_max_slew s msa * (1 + eps) < Qabs A / tr_rise t0 \/
+    trap_max_slew s msa * (1 + eps) < Qabs A / tr_fall t0)).
+Proof. exact add_trap_raises_iff_over_limit. Qed.
+Print Assumptions C16_add_raises_iff_over_limit_trap.
+
+(* Extended-trapezoid path, for every input list one block can hold (C05Legal): add_gradients raises
+   EXACTLY when the sum on the common grid ([ext_sum grads], whose rendering is the sum of the
+   inputs at every time by C16_add_ext_path_sum) exceeds max_grad + eps at a corner or
+   max_slew (1 + eps) on a segment; no other error class can occur. *)
+Theorem C16_add_raises_iff_over_limit_ext : forall s D mga msa grads,
+  C05Legal s D grads -> (2 <= length (T0 grads))%nat ->
+  (2 <= length grads)%nat -> same_timing grads = false ->
+  forallb (fun g => is_trap g || negb (is_arb s g)) grads = true ->
+  0 <= ext_max_grad s mga -> 0 <= ext_max_slew s msa ->
+  ((exists e, add_gradients s mga msa grads = Err e) <->
+   ~ (corner_bound (ext_max_grad s mga + eps) (ext_sum grads) /\
+      seg_bound (ext_max_slew s msa * (1 + eps)) (ext_sum grads))).
+Proof. exact add_ext_raises_iff_over_limit. Qed.
+Print Assumptions C16_add_raises_iff_over_limit_ext.
+
+(* ... and when it returns, the SUM OF THE INPUTS is within these limits at EVERY time (amplitude) and
+   between any two times of the common support (slew) — Base/PWL.v within_corners_implies_everywhere *)
+Theorem C16_add_ext_sum_within_everywhere : forall s D mga msa grads g,
+  C05Legal s D grads -> (2 <= length (T0 grads))%nat ->
+  (2 <= length grads)%nat -> same_timing grads = false ->
+  forallb (fun g => is_trap g || negb (is_arb s g)) grads = true ->
+  0 <= ext_max_grad s mga -> 0 <= ext_max_slew s msa ->
+  add_gradients s mga msa grads = OK (P_ext, g) ->
+  (forall t, Qabs (sum_eval (map to_pwl grads) t) <= ext_max_grad s mga + eps) /\
+  (forall t u, hd 0 (T0 grads) <= t <= last (T0 grads) 0 -> hd 0 (T0 grads) <= u <= last (T0 grads) 0 ->
+     Qabs (sum_eval (map to_pwl grads) t - sum_eval (map to_pwl grads) u)
+     <= ext_max_slew s msa * (1 + eps) * Qabs (t - u)).
+Proof. exact add_ext_sum_within_everywhere. Qed.
+Print Assumptions C16_add_ext_sum_within_everywhere.
+
+(* StartsOk / EndsOk are not extra assumptions for real sequences: every input list that one block
+   can hold (timings on the raster, a gradient starting away from zero has zero delay, one ending
+   away from zero ends at the block end D) satisfies ExtInputsOk ... *)
+Theorem C16_c05_legal_inputs_ok : forall s D grads, C05Legal s D grads -> ExtInputsOk s grads.
+Proof. exact c05_legal_inputs_ok. Qed.
+Print Assumptions C16_c05_legal_inputs_ok.
+
+(* ... so the pointwise-sum theorem holds for all of them *)
+Theorem C16_add_ext_path_sum_legal : forall s D mg ms grads g,
+  add_gradients s mg ms grads = OK (P_ext, g) -> C05Legal s D grads ->
+  forall t, eval (to_pwl g) t == sum_eval (map to_pwl grads) t.
+Proof. exact add_ext_path_sum_legal. Qed.
+Print Assumptions C16_add_ext_path_sum_legal.
+
+(* Duration = the longest input duration, on all three paths *)
+Theorem C16_add_duration_is_max_trap : forall s mg ms grads g,
+  add_gradients s mg ms grads = OK (P_trap, g) -> (forall x, In x grads -> WF x) ->
+  g_dur g == maxl (map g_dur grads).
+Proof. exact add_duration_is_max_trap. Qed.
+Print Assumptions C16_add_duration_is_max_trap.
+
+Theorem C16_add_duration_is_max_ext : forall s D mg ms grads g,
+  add_gradients s mg ms grads = OK (P_ext, g) -> C05Legal s D grads ->
+  g_dur g == maxl (map g_dur grads).
+Proof. exact add_duration_is_max_ext. Qed.
+Print Assumptions C16_add_duration_is_max_ext.
+
+Theorem C16_add_duration_is_max_raster : forall s mg ms grads g,
+  add_gradients s mg ms grads = OK (P_raster, g) -> RasterInputsOk s grads ->
+  (forall x, In x grads -> FieldsOk x) ->
+  g_dur g == maxl (map g_dur grads).
+Proof. exact add_duration_is_max_raster. Qed.
+Print Assumptions C16_add_duration_is_max_raster.
 
 (* ---------- non-vacuity ---------- *)
 Definition ex_sys := mkSys 1000 1000 1.
@@ -102,6 +194,40 @@ Qed.
 Example C16_trap_path_reached :
   exists g, add_gradients ex_sys 0 0 [GTrap (mkTrap 100 1 1 1 0); GTrap (mkTrap (-30) 1 1 1 0)] = OK (P_trap, g).
 Proof. eexists. vm_compute. reflexivity. Qed.
+
+Ltac on_raster_1 :=
+  first [exists 0%Z; reflexivity | exists 1%Z; reflexivity | exists 2%Z; reflexivity
+        | exists 3%Z; reflexivity | exists 4%Z; reflexivity].
+
+Example C16_C05Legal_satisfiable : C05Legal ex_sys 4 ex_grads.
+Proof.
+  constructor.
+  - discriminate.
+  - intros g [<-|[<-|[]]]; cbn; repeat split; try lra; try discriminate; reflexivity.
+  - vm_compute. discriminate.
+  - intros g c [<-|[<-|[]]] Hc; cbn in Hc; repeat (destruct Hc as [<-|Hc]); try destruct Hc; on_raster_1.
+  - intros g [<-|[<-|[]]]; cbn; lra.
+  - intros g [<-|[<-|[]]]; cbn; lra.
+  - intros g [<-|[<-|[]]] Hn; cbn in *; reflexivity.
+  - intros g [<-|[<-|[]]] Hn; cbn in *; exfalso; apply Hn; reflexivity.
+Qed.
+
+Definition ex_raster_grads :=
+  [GTrap (mkTrap 100 1 1 1 1); GExt (mkEG 0 [1 # 2; 3 # 2] [5; 7] 0 0 2)].
+
+Example C16_raster_path_reached : exists g, add_gradients ex_sys 0 0 ex_raster_grads = OK (P_raster, g).
+Proof. eexists. vm_compute. reflexivity. Qed.
+
+Example C16_RasterInputsOk_satisfiable : RasterInputsOk ex_sys ex_raster_grads.
+Proof.
+  constructor; [reflexivity|discriminate|].
+  intros g [<-|[<-|[]]].
+  - split; [exists 1%Z; reflexivity|]. split; [cbn; repeat split; lra|exists 3%Z; reflexivity].
+  - split; [exists 0%Z; reflexivity|].
+    assert (E : is_arb ex_sys (GExt (mkEG 0 [1 # 2; 3 # 2] [5; 7] 0 0 2)) = true) by (vm_compute; reflexivity).
+    rewrite E. repeat split; cbn [eg_tt eg_wf eg_shape_dur length]; try lia; try reflexivity.
+    intros j Hj. destruct j as [|[|j]]; [reflexivity|reflexivity|lia].
+Qed.
 
 (* ---------- the StartsOk hypothesis is necessary (the model is faithful to the `tt[0] += eps` hack):
    an extended trapezoid that starts at 50 after a delay of one raster, added to a trapezoid: the
